@@ -45,7 +45,7 @@ def run(ctx):
         vlib.log("replay: not reproduced on the current tree")
         return 0
     cases = os.path.join(ctx.work, "cases.ndjson")
-    ctx.tlc("LegacyExprGen", "LegacyExprGen.cfg", timeout=3000, constants=dict(OutFile=json.dumps(cases)))
+    ctx.tlc("LegacyExprGen", "LegacyExprGen.cfg", timeout=6000, constants=dict(OutFile=json.dumps(cases), Deep="FALSE" if ctx.tier == "quick" else "TRUE"))
     ncases = sum(1 for _ in open(cases))
     outs, st = ctx.shards("c17-legacy", cases, os.path.join(ctx.work, "l.trace"))
     tracefile = os.path.join(ctx.work, "trace.ndjson")
